@@ -334,7 +334,7 @@ pub fn run(args: &Args) -> i32 {
         }
     }
     // ---- writer subjects
-    let nh = args.scale(30, 200);
+    let nh = args.scale(320, 6400);
     for hi in 0..nh as usize {
         let mut rng = Rng::derive(args.seed, 0xC10, hi as u64);
         let (mt, ms, mz) = if hi % 5 == 0 { (3, 40, 200) } else { (2, 8, 40) };
